@@ -1805,6 +1805,14 @@ theorem C12_cast_raises_exactly (o : Obj) (hj : ∀ m, o ≠ .junk m) (name : St
 theorem C12_dealloc_raises_exactly (a : AllocK) (h : a ≠ .heap) : deallocObj a = .raised .ResourceError := by
   cases a <;> simp_all [deallocObj]
 
+/-- **the declaration matrix generated from the sources says what the model says**: for every modelled type (Array, List, Tuple,
+    Table, Tree, String, Range, Slice, Zip, Int, and the instance-less probe type) and every class member an operation is dispatched
+    through (Get: get set mem rem; Push: push pop push_at pop_at; Resize; Len; Concat: concat append; Format: format_to), the member is
+    declared non-NULL in `CelloGen.Disp.declared` exactly when the hand model does not list it as lacking (`lacks`).  Removing or
+    adding an `Instance(…)` or a member in a `Cello(T, …)` declaration breaks this obligation. -/
+theorem C12_declarations_as_modelled :
+    ∀ ty ∈ modelledTypes, ∀ m ∈ allMembers, declares ty m.1 m.2 = !(lacks ty).contains m := declares_as_modelled
+
 /-- **C12, unimplemented class or member ⇒ ClassError, from the declarations of the sources.** `declares` reads the matrix
     `CelloGen.Disp.declared`, regenerated on every run from the `Cello(T, Instance(Class, members…))` texts.  For every object of
     the model (any state; views over any store), every operation and the class member `m` it is dispatched through: if the
